@@ -165,6 +165,8 @@ func (e *Engine) intrinsic3(name string, args []any) (any, bool) {
 			e.Reach[args[0].(string)]++
 		}
 		return nil, true
+	case "Native":
+		return false, true
 	case "AppendSpare":
 		e.appendSpare, e.appendSpareChosen = int(args[0].(int64)), -1
 		return nil, true
